@@ -528,6 +528,72 @@ def check_cutoff(inp) -> list:
         sub = check_basis_invariants({"crystal": cr, "orders": [order], "cutoff": {str(order): cval}},
                                      which=("perm", "sum", "spg"))
         out += [f"cutoff {cval:.4f}: {s}" for s in sub]
+
+    def beyond_cutoff_nonzero(T, near):
+        bad = 0
+        for idx in itertools.product(range(N), repeat=order):
+            if not all(near[a, b] for a in idx for b in idx) and np.any(T[idx] != 0.0):
+                bad += 1
+        return bad
+
+    rs_c = np.random.default_rng(inp.get("seed", 0) + 11)
+    if cuts and not out:
+        # (a) the same cutoff requested through the API with a per-order dictionary whose OTHER orders carry other
+        # values: the basis of this order must be the one the basis-set class gives for this order's value
+        from symfc import Symfc
+        sel_a = list(range(len(cuts))) if len(cuts) <= 4 else sorted(rs_c.choice(len(cuts), size=4, replace=False).tolist())
+        for ci in sel_a:
+            cval = cuts[ci]
+            # (also a value below the nearest-neighbour distance: harmless for the orders that are not computed)
+            others = [c for c in cuts if c != cval] + [cval + 1.0, 0.5 * float(vals[0])]
+            cd = {o: (cval if o == order else float(others[int(rs_c.integers(0, len(others)))])) for o in (2, 3, 4)}
+            direct = ph.get_basis(cr, order, cutoff=cval)
+            try:
+                api = Symfc(cr.atoms(), cutoff=cd).compute_basis_set(orders=[order]).basis_set[order]
+                nb_api = api.basis_set.shape[1]
+            except ValueError:
+                api, nb_api = None, 0
+            if nb_api != direct.basis_set.shape[1]:
+                out.append(f"order {order}: Symfc with cutoff {cd} gives {nb_api} basis vectors, the basis-set class with "
+                           f"cutoff {cval:.4f} gives {direct.basis_set.shape[1]}")
+            elif nb_api:
+                T = ph.expand(api, _rand_coef(6, nb_api), N, order)
+                bad = beyond_cutoff_nonzero(T, ref < cval)
+                if bad:
+                    out.append(f"order {order}: Symfc with cutoff {cd}: {bad} atom tuples with a pair beyond {cval:.4f} are not zero")
+                A = _projector(api)
+                B = _projector(direct)
+                if float(np.abs(A @ (A.T @ B) - B).max()) > 1e-7:
+                    out.append(f"order {order}: Symfc with cutoff {cd} spans another space than the basis-set class with {cval:.4f}")
+        # (b) the same cutoff VALUE straight afterwards on the same supercell with a uniformly expanded lattice (same
+        # translation permutations, other distances): what is out of range is decided by the new geometry
+        cval = cuts[int(rs_c.integers(0, len(cuts)))]
+        sc = float(rs_c.choice([1.3, 1.6, 0.7]))
+        cr_s = Crystal(cr.name, cr.lattice * sc, cr.positions, cr.numbers, cr.n_lp_expected, {})
+        near_s = ref * sc < cval
+        offdiag = ref[ref > 1e-6] * sc
+        # (a cutoff that leaves no pair of distinct atoms in range is outside the domain: DESIGN.md section 7, (ii))
+        if abs(ref * sc - cval).min() > 1e-4 and offdiag.size and offdiag.min() < cval:
+            try:
+                ph.basis_cls(order)(cr.atoms(), cutoff=cval).run()        # the unscaled one, straight before
+            except ValueError:
+                pass
+            try:
+                bs_s = ph.basis_cls(order)(cr_s.atoms(), cutoff=cval).run()
+                nb_s = bs_s.basis_set.shape[1]
+            except ValueError:
+                bs_s, nb_s = None, 0
+            if nb_s:
+                T = ph.expand(bs_s, _rand_coef(7, nb_s), N, order)
+                bad = beyond_cutoff_nonzero(T, near_s)
+                if bad:
+                    out.append(f"order {order}, cutoff {cval:.4f} on the lattice scaled by {sc} (computed straight after the "
+                               f"unscaled one): {bad} atom tuples with a pair beyond the cutoff are not exactly zero")
+            if bool(near_s.all()):
+                nb0_ = nocut.basis_set.shape[1]
+                if nb_s != nb0_:
+                    out.append(f"order {order}, cutoff {cval:.4f} on the lattice scaled by {sc}: every pair is in range but "
+                               f"the basis has {nb_s} vectors, without a cutoff {nb0_}")
     for a, b, c1, c2 in zip(dims[:-1], dims[1:], cuts[:-1], cuts[1:]):
         if b < a:
             out.append(f"order {order}: enlarging the cutoff {c1:.4f} -> {c2:.4f} shrinks the basis {a} -> {b}")
@@ -668,15 +734,19 @@ def check_paths(inp) -> list:
             if dev > 1e-6:
                 out.append(f"order {order}: {what}: span changes (dev {dev:.2e})")
 
+    import contextlib
+    import io
     for hooks in inp["hook_sets"]:
-        with Hooks(**hooks):
+        hooks = dict(hooks)
+        ll = hooks.pop("_log_level", 0)
+        with Hooks(**hooks), contextlib.redirect_stdout(io.StringIO()):
             try:
-                bs = ph.basis_cls(order)(cr.atoms()).run()
+                bs = ph.basis_cls(order)(cr.atoms(), log_level=ll).run()
             except ValueError as e:
                 if "range() arg 3" in str(e):
                     continue        # forced batch count larger than the number of combinations
                 raise
-        compare(bs, f"hooks {hooks}")
+        compare(bs, f"hooks {hooks}" + (f" log_level={ll}" if ll else ""))
     # explicit operations, shuffled (identity first)
     rots, trans = ph.spg_ops(cr)
     rs = np.random.default_rng(inp.get("seed", 0))
@@ -1219,7 +1289,8 @@ def check_solver_reuse(inp) -> list:
                 sc = max(float(np.abs(r).max()), 1e-300)
                 if g.shape != r.shape or float(np.abs(g - r).max()) / sc > 1e-7:
                     out.append(f"solver {orders}: {layout} force constants of order {o} after solve #{step + 1} "
-                               f"(dataset {ds}) differ from a fresh solver object")
+                               f"(dataset {ds}, batch_size {bsz}) differ from a fresh solver object with the default "
+                               f"batch size")
                 elif not np.array_equal(g, a):
                     out.append(f"solver {orders}: reading {layout} twice gives different arrays (order {o})")
         if out:
